@@ -25,7 +25,7 @@ def obligations(tier):
     q = tier == 'quick'
     return [
         Ob('populate_frame_array_end_to_end', 'ch', '5 IFLR interleavings of 1..2 frame types (1..6 records), optional empty record, VR per record or shared; selector none / Slice(-2..3, {-2,0,2,3,5} (all -2..5 thorough), 1..3) / reverse order Slice(None, None, -1..-3) and Slice(a, b, -1..-3) / Sample(1..3); '
-           'channel subsets; with/without an earlier population',
+           'channel subsets (the channel after X is of rank 2: dimensions [1, 2]); with/without an earlier population',
            ['RP66V1.core.LogicalFile.LogicalIndex.__enter__', 'LogicalFile.LogicalFile.add_eflr/add_iflr/populate_frame_array/num_frames', 'RP66V1.core.LogPass.log_pass_from_RP66V1/frame_array_from_RP66V1',
             'RP66V1FrameArray.read/read_partial/read_x_axis', 'RP66V1FrameChannel.read/seek', 'common.LogPass.FrameArray.init_arrays/init_arrays_partial', 'FrameChannel.init_array/numpy_indexes',
             'RP66V1.core.XAxis.XAxis.append', 'LogicalRecord.IFLR.IndirectlyFormattedLogicalRecord', 'common.Slice.Slice/Sample'],
